@@ -54,7 +54,9 @@ pub mod verif_hooks {
         static LAST_TABLE: std::cell::RefCell<Vec<(Vec<Vec<u8>>, usize)>> = std::cell::RefCell::new(Vec::new());
     }
 
-    /// called by Packet::write_compressed_to with the compression table it ends up with: (labels of the suffix, offset)
+    /// called by Packet::write_compressed_to with the compression table it ends up with: (labels of the suffix, offset);
+    /// only with the additional cfg simple_dns_verif_table, so that the other hooks stay usable if this one stops compiling
+    #[cfg_attr(not(simple_dns_verif_table), allow(dead_code))]
     pub(crate) fn record_compression_table(entries: Vec<(Vec<Vec<u8>>, usize)>) {
         LAST_TABLE.with(|t| *t.borrow_mut() = entries);
     }
